@@ -448,6 +448,9 @@ func cmdCheck(args []string) int {
 	// baseline obligations that disappeared
 	var missing []string
 	for name := range baseline {
+		if *only != "" {
+			break // debug run: only part of the obligations is generated
+		}
 		if !seen[name] {
 			missing = append(missing, name)
 		}
